@@ -273,7 +273,11 @@ func judge(c *core.Ctx, cf cfg, h *hist.History, verbose bool) {
 					c.Count("reference_panics", 1)
 				} else {
 					c.Count("compared_with_reference", 1)
-					if cf.equality && (ref.Out != res.Out || ref.IsErr != res.IsErr) && !c.Strict && bareAmpBeforeCall(h) {
+					if cf.equality && (ref.Out != res.Out || ref.IsErr != res.IsErr) && !c.Strict && callEachOther(h) {
+						// known finding K100 (C06): for templates that call each other, whether the
+						// analysis finds a consistent output context depends on the member it enters by
+						c.Count("excluded_K100_templates_that_call_each_other", 1)
+					} else if cf.equality && (ref.Out != res.Out || ref.IsErr != res.IsErr) && !c.Strict && bareAmpBeforeCall(h) {
 						// known finding K49 (C06) / K05r (C14): a bare "&" directly before a template
 						// call inside an attribute value is not part of the name of the callee's copy
 						c.Count("excluded_K49_bare_ampersand_before_call", 1)
@@ -641,6 +645,17 @@ func mutualRecursion(c *core.Ctx, cf cfg, r *core.Rng) {
 		c.Journal(util.JSON(kase{History: h}))
 		judge(c, cf, h, false)
 	}
+}
+
+// callEachOther reports whether the history is one of the mutualRecursion scenario: t0 and t1
+// call each other.
+func callEachOther(h *hist.History) bool {
+	for _, op := range h.Ops {
+		if op.Kind == "parse" && strings.Contains(op.Text, `{{define "t1"}}`) && strings.Contains(op.Text, `{{template "t0" .}}`) && strings.Contains(op.Text, `{{template "t1" .}}`) {
+			return true
+		}
+	}
+	return false
 }
 
 // budgetHistories returns histories over a set whose members are analysed at a cost near the
